@@ -41,6 +41,13 @@ def callersOf (p : Platform) (helper : String) : List String :=
 def tracesOf (p : Platform) : List (String × Nat × List String) :=
   (Gen.C20.traces.lookup p.key).getD []
 
+/-- (method, pid, first faulted call, mode, native calls the method still makes after going on) -/
+def traces2Of (p : Platform) : List (String × Nat × String × String × List String) :=
+  (Gen.C20.traces2.lookup p.key).getD []
+
+def Mode.ofTag? (s : String) : Option Mode :=
+  if s == "fallback" then some .fallback else if s == "rerun" then some .rerun else none
+
 def slotMapOf (key : String) : SlotMap := (Gen.C20.slotMaps.lookup key).getD []
 
 def feedsOf (f : Family) : List (String × String × String × String) :=
